@@ -76,12 +76,12 @@ fn run_one(sc: &Value) {
     } else {
         func_addr = u(sc, "func_page") + off;
         tramp_page = (page(func_addr) as i64 + tramp_delta * 4096) as u64;
-        fake_addr = (tramp_page + 5).wrapping_add(want_disp as u64);
+        fake_addr = if sc.get("fake_abs").is_some() { u(sc, "fake_abs") } else { (tramp_page + 5).wrapping_add(want_disp as u64) };
         want_id = if flavour == "bool" { u(sc, "boolv") as u32 } else { FAKE_ID };
     }
     emit(json!({"ev":"Place","func":a8(func_addr),"tramp_page":a8(tramp_page),"fake":a8(fake_addr),"flavour":flavour,
         "disp":want_disp,"off":off,"tramp_delta_pages":tramp_delta,"dictate":dictate}));
-    if dictate && (tramp_page < 4096 || tramp_page >= (1u64 << 47) - 8192) {
+    if dictate && sc.get("free_deltas").is_none() && (tramp_page < 4096 || tramp_page >= (1u64 << 47) - 8192) {
         emit(json!({"ev":"Note","what":"skipped","why":"dictated trampoline page outside user space"}));
         return;
     }
@@ -140,9 +140,24 @@ fn run_one(sc: &Value) {
     emit(json!({"ev":"Target","f":"f1","orig":origb,"split":split,"rwpages":watch::writable_pages(func_addr),"addr":a8(func_addr)}));
     if dictate {
         let mut free = BTreeSet::new();
-        free.insert(tramp_page);
+        if let Some(fd) = sc.get("free_deltas").and_then(|x| x.as_array()) {
+            for d in fd {
+                let pg = page(func_addr) as i64 + d.as_i64().unwrap_or(0) * 4096;
+                if pg >= 4096 {
+                    free.insert(pg as u64);
+                }
+            }
+        } else {
+            free.insert(tramp_page);
+        }
         interpose::QUIET_FAILS.store(true, SeqCst);
-        interpose::set_policy(Some(Policy { free: Some(free), occupied: 0, ..Default::default() }));
+        interpose::set_policy(Some(Policy {
+            free: Some(free),
+            occupied: u(sc, "occupied") as u8,
+            elsewhere: (page(func_addr) as i64 + i(sc, "elsewhere_delta") * 4096) as u64,
+            occ_budget: u(sc, "occ_budget") as usize,
+            ..Default::default()
+        }));
     }
     let mut inj = in_lib(InjectorPP::new);
     let mut rust_fake = rust_fake;
@@ -187,7 +202,7 @@ fn run_one(sc: &Value) {
     };
     let kind = if flavour == "bool" { "bool" } else { "jump" };
     emit(json!({"ev":"Installed","outcome":outcome,"cls":cls,"msg":msg,"kind":kind,"v":if flavour=="bool"{want_id}else{0},
-        "func":a8(func_addr),"tramp":a8(tramp),"fake":a8(fake_addr),"fake_known":fake_addr!=0,
+        "func":a8(func_addr),"tramp":a8(tramp),"tramp_name":format!("m{:x}", tramp),"fake":a8(fake_addr),"fake_known":fake_addr!=0,
         "entry":entry,"trampb":trampb,"origb":origb,"want":want_id,"orig_id":ORIG_ID,
         "quiet_mmap":interpose::QUIET_COUNT.swap(0, SeqCst),"live":interpose::owned_live()}));
     let res = call_stub(func_addr);
